@@ -194,6 +194,15 @@ class Ctx:
                 if q is not None:
                     self.stats["calls_resolved"] += 1
                     idx.setdefault(q, []).append((f, call))
+        # functools.singledispatch: an implementation registered with `@generic.register(T)` is entered wherever `generic` is called
+        for f in self.P.funcs.values():
+            for d in getattr(f.node, "decorator_list", []):
+                base = d.func if isinstance(d, ast.Call) else d
+                if isinstance(base, ast.Attribute) and base.attr == "register" and isinstance(base.value, ast.Name):
+                    gq = next((g.qualname for g in self.P.funcs.values() if g.name == base.value.id and g.module is f.module and g.cls is f.cls
+                               and g.parent is f.parent), None)
+                    if gq is not None and gq != f.qualname:
+                        idx.setdefault(f.qualname, []).extend(idx.get(gq, []))
         return idx
 
     def call_graph(self) -> Dict[str, set]:
